@@ -74,7 +74,7 @@ fn expect_at(p: &Pointwise, t: NaiveDateTime, p_full: bool) -> (u8, Result<Optio
 }
 
 pub fn instants(p: &Pointwise, blocks: &[(NaiveDate, NaiveDate)], quick: bool, full: bool) -> Vec<NaiveDateTime> {
-    let (starts, _) = c02::derived_starts(p, blocks, if quick { 40 } else { 300 }, if quick { 16 } else { 100 });
+    let (starts, _) = c02::derived_starts(p, blocks, if quick { 40 } else { 200 }, if quick { 16 } else { 60 });
     let mut set: BTreeSet<NaiveDateTime> = starts.into_iter().collect();
     // extra offsets around the same boundaries
     let bs: Vec<NaiveDateTime> = set.iter().copied().collect();
@@ -93,7 +93,7 @@ pub fn instants(p: &Pointwise, blocks: &[(NaiveDate, NaiveDate)], quick: bool, f
             let mut m = 0;
             while m < 1440 {
                 set.insert(d.and_hms_opt(m / 60, m % 60, 0).unwrap());
-                m += if quick { 97 } else { 7 };
+                m += if quick { 97 } else { 11 };
             }
         }
     }
@@ -282,7 +282,7 @@ pub fn check_item(it: &Item, c: &Ctx, quick: bool, only: Option<NaiveDateTime>, 
                 .into_iter()
                 .filter(|t| *t >= b0.and_hms_opt(0, 0, 0).unwrap() && *t < b1.and_hms_opt(23, 59, 0).unwrap())
                 .collect();
-            let (n, ok, tr) = check_instants(&oh, it, c, &p, false, &ts, if quick { 0 } else { budget }, acc);
+            let (n, ok, tr) = check_instants(&oh, it, c, &p, false, &ts, if quick { 0 } else { 6_000_000 }, acc);
             tally(n, ok, tr, acc);
         }
         if nontrivial {
@@ -296,6 +296,20 @@ pub fn run(cfg: &Cfg) -> Outcome {
     if let Ok(n) = std::env::var("OHMC_LIMIT") {
         items.truncate(n.parse().unwrap_or(usize::MAX));
     }
+    if let Ok(seg) = std::env::var("OHMC_SEGMENT") {
+        // experimentation only (never set by ./check): "full" | "deep" | "rest:<stride>"
+        items = items
+            .into_iter()
+            .enumerate()
+            .filter(|(i, it)| match seg.as_str() {
+                "full" => it.full,
+                "deep" => it.deep && !it.full,
+                s => !it.deep && !it.full && i % s.trim_start_matches("rest:").parse::<usize>().unwrap_or(1) == 0,
+            })
+            .map(|(_, it)| it)
+            .collect();
+    }
+    eprintln!("C03: {} items ({} full-window, {} deep block-mode, {} quick-depth block-mode)", items.len(), items.iter().filter(|i| i.full).count(), items.iter().filter(|i| i.deep && !i.full).count(), items.iter().filter(|i| !i.deep && !i.full).count());
     let ctxs = vec![ctx::empty(), ctx::synthetic(), ctx::country(&cfg.repo, opening_hours::localization::Country::FR, "FR")];
     let work: Vec<(usize, usize)> = (0..items.len()).flat_map(|i| (0..ctxs.len()).map(move |c| (i, c))).collect();
     let accs: Vec<Acc> = work
@@ -332,7 +346,7 @@ pub fn run(cfg: &Cfg) -> Outcome {
     }
     o.cov("family_size", json!(items.len()));
     o.cov("full_window_expressions", json!(n_full));
-    o.cov("rule", json!("for every expression × context: every derived instant (P boundaries of the window × {−1min, −1s, 0, +1ms, +1s, +30s, +59.999s, +1min}, every 7th (quick: 97th) minute of six fixed days, 16 instants around and far outside both ends of the supported range) is queried on the real state / is_open / is_closed / is_unknown / next_change and compared with the pointwise oracle P (kind of the run containing t; end of that run, None iff it reaches 10000-01-01); oracle-free relations: next_change > t, < DATE_END, equal for all t of one run. states = instants, transitions = next_change calls; block mode only requires answers beyond the block edge to be no earlier than the edge. next_change walks day by day where selectors give no hint: queries stop for an expression once a deterministic budget of schedule_at calls (H1 counter) is used up (counted). Thorough tier: the quick family is explored at thorough depth (W_core blocks, larger start caps, all pairs, larger budgets); the expressions only the thorough family adds (E1 with two selector kinds, every 5th E2, every 37th E3, the larger shortcut family K) at the quick tier's depth"));
+    o.cov("rule", json!("for every expression × context: every derived instant (P boundaries of the window × {−1min, −1s, 0, +1ms, +1s, +30s, +59.999s, +1min}, every 11th (quick: 97th) minute of six fixed days, 16 instants around and far outside both ends of the supported range) is queried on the real state / is_open / is_closed / is_unknown / next_change and compared with the pointwise oracle P (kind of the run containing t; end of that run, None iff it reaches 10000-01-01); oracle-free relations: next_change > t, < DATE_END, equal for all t of one run. states = instants, transitions = next_change calls; block mode only requires answers beyond the block edge to be no earlier than the edge. next_change walks day by day where selectors give no hint: queries stop for an expression once a deterministic budget of schedule_at calls (H1 counter) is used up (counted). Thorough tier: the quick family is explored at thorough depth (W_core blocks, larger start caps, all pairs, larger budgets); the expressions only the thorough family adds (E1 with two selector kinds, every 5th E2, every 37th E3, the larger shortcut family K) at the quick tier's depth"));
     o.assume("P uses the real schedule_at (consistency property)");
     o
 }
